@@ -3,6 +3,7 @@
    observable.  Used identically by the extracted OCaml driver and by the
    in-Coq vm_compute evaluation. *)
 From Lungo.Model Require Import Compare RunAccess RunMatch.
+From Lungo.Spec Require Import RunRef.
 Open Scope string_scope.
 
 Definition bad : string := "BAD-CASE".
@@ -27,6 +28,7 @@ Definition runners : list (sexp -> option string) :=
   [ run_cmp
   ; run_access
   ; run_match
+  ; run_matchref
   ].
 
 Fixpoint first_some (rs : list (sexp -> option string)) (x : sexp) : string :=
